@@ -12,13 +12,13 @@ def wname(w):
     return "id%dseq%d" % w
 
 
-def sym_conf(ctx, idw, seqw, crc=None, large=None, prefix=""):
+def sym_conf(ctx, idw, seqw, crc=None, large=None, prefix="", segctrl=None):
     """PduConfig with symbolic IDs over the full width, symbolic direction/mode/seg ctrl; crc/large concrete when given.
     Returns (conf, vals) where vals is a dict of the symbolic field values."""
     v = dict(
         src=ctx.int(prefix + "src", 0, (1 << (8 * idw)) - 1), dst=ctx.int(prefix + "dst", 0, (1 << (8 * idw)) - 1),
         seq=ctx.int(prefix + "seq", 0, (1 << (8 * seqw)) - 1), mode=ctx.flag(prefix + "mode"),
-        direction=ctx.flag(prefix + "dir"), segctrl=ctx.flag(prefix + "segctrl"),
+        direction=ctx.flag(prefix + "dir"), segctrl=ctx.flag(prefix + "segctrl") if segctrl is None else segctrl,
         crc=ctx.flag(prefix + "crc") if crc is None else crc,
         large=ctx.flag(prefix + "large") if large is None else large, idw=idw, seqw=seqw)
     conf = PduConfig(source_entity_id=UnsignedByteField(v["src"], idw), dest_entity_id=UnsignedByteField(v["dst"], idw),
@@ -59,3 +59,36 @@ def snap_eq(a, b):
 
 def with_crc(ctx, body):
     return body + be(crc16(ctx, body), 2)
+
+
+# ---------------------------------------------------------------- TLV reference layouts (727.0-B-5 5.4)
+SNP_ACTIONS = (2, 3, 4)
+
+
+def member(x, values):
+    return sym_or(*[x == v for v in values])
+
+
+def ref_tlv(t, value_items):
+    return [t, len(value_items)] + list(value_items)
+
+
+def ref_lv(value_items):
+    return [len(value_items)] + list(value_items)
+
+
+def ref_fs_value(first_octet, action_is_snp, b1, b2, msg_items=None):
+    val = [first_octet] + ref_lv(b1) + (ref_lv(b2) if action_is_snp else [])
+    if msg_items is not None:
+        val += ref_lv(msg_items)
+    return val
+
+
+def config_matrix(tier, widths_quick=None, widths_thorough=None):
+    """(idw, seqw, crc, large) combinations"""
+    ws = tier_pick(tier, widths_quick or QUICK_WIDTHS, widths_thorough or ALL_WIDTHS)
+    return [(i, s, c, l) for (i, s) in ws for c in (0, 1) for l in (0, 1)]
+
+
+def cname(cfg):
+    return "id%dseq%d%s%s" % (cfg[0], cfg[1], "-crc" if cfg[2] else "", "-large" if cfg[3] else "")
